@@ -151,4 +151,4 @@ def run(tier, out, model_ok, proof):
         "rejected_as_expected": rejected, "neutral_cases": neutral,
         "exhaustive": big,
     })
-    out.assumptions += ["PARTIAL: theorems are about the pre-order ban check on the expanded forest (Model/Ban.v); the rest of the pipeline is compared on the implementation only"]
+    out.assumptions += ["PARTIAL: theorems are about the expanded forest the builder walks (Model/Ban.v pre-order check; Proofs/BanBuild.v the whole model build with vs without the option); kinds that never reach it are finding F18; the phases before the builder are compared on the implementation only"]
